@@ -99,6 +99,8 @@ def main():
         "engines": [
             {"name": "mcmc-verif", "path": "harness", "serves_properties": sorted(CHECKS.keys()),
              "kind_free_text": "Rust binary: proptest 1.11 TestRunner (fixed ChaCha seed from VERIF_SEED, no persistence) over serde case structs, independent f64 reference models, crafted-RNG injection, replay files"},
+            {"name": "libfuzzer-targets", "path": "fuzz", "serves_properties": ["C01", "C11", "C12", "C13", "C16", "C17"],
+             "kind_free_text": "cargo-fuzz crate (targets mh_step, stats, categorical, io) run by fuzz/run_fuzz.sh in the thorough tier: bytes decoded with arbitrary::Unstructured into the same case structs, the same oracle functions as the proptest sections inside the target, failures written as replay files and re-confirmed through the release harness"},
         ],
         "checks": [],
         "not_applicable": [],
